@@ -415,16 +415,30 @@ func (vc *VC) implementsFacts() string {
 // splitGoal splits a goal term into conjuncts, looking through applications of
 // macro-defined (define-fun) spec predicates.
 func (w *World) splitGoal(g Term, depth int) []Term {
-	if depth > 6 || g.Sort != SBool {
+	if depth > 8 || g.Sort != SBool {
 		return []Term{g}
 	}
 	s := g.S
 	if strings.HasPrefix(s, "(and ") {
 		var out []Term
 		for _, p := range splitTopLevel(s[1 : len(s)-1])[1:] {
-			out = append(out, w.splitGoal(Term{p, SBool}, depth+1)...)
+			out = append(out, w.splitGoal(Term{p, SBool}, depth)...)
 		}
 		return out
+	}
+	if strings.HasPrefix(s, "(=> ") {
+		parts := splitTopLevel(s[1 : len(s)-1])
+		if len(parts) == 3 {
+			cons := w.splitGoal(Term{parts[2], SBool}, depth+1)
+			if len(cons) > 1 {
+				var out []Term
+				for _, c := range cons {
+					out = append(out, Term{"(=> " + parts[1] + " " + c.S + ")", SBool})
+				}
+				return out
+			}
+		}
+		return []Term{g}
 	}
 	if strings.HasPrefix(s, "(sf!") {
 		parts := splitTopLevel(s[1 : len(s)-1])
